@@ -781,5 +781,425 @@ theorem strAt_table (pre : Bytes) (ns : List Bytes) (hn : ∀ n ∈ ns, (0 : UIn
       simpa using this
 
 
+theorem bind_ok {α β} {x : M α} {f : α → M β} {r : β} (h : (x >>= f) = .ok r) :
+    ∃ v, x = .ok v ∧ f v = .ok r := by
+  cases x with
+  | error e => simp [bind, Except.bind] at h
+  | ok v => exact ⟨v, rfl, h⟩
+
+theorem recAt_value_lt (cfg : Cfg) (symB : Bytes) (i : Nat) :
+    (recAt cfg symB i).value < 18446744073709551616 := by
+  unfold recAt Spec.decodeSym
+  cases cfg.cls <;> simp only
+  · have := decodeInt_slice_lt cfg.enc (slice symB (i * Spec.symSize .c32) (Spec.symSize .c32)) 4 4
+    simp only [Nat.reduceMul, Nat.reducePow] at this; omega
+  · have := decodeInt_slice_lt cfg.enc (slice symB (i * Spec.symSize .c64) (Spec.symSize .c64)) 8 8
+    simp only [Nat.reduceMul, Nat.reducePow] at this; omega
+
+/-- `generic_get_symbol_ptr` + the `st_value` read = the decoded record's value -/
+theorem symPtrValue_eq {t : SymTab} {symB strB : Bytes} (h : Wf t symB strB) (i : BitVec 64) :
+    t.symPtrValue i = .ok (if i.toNat < countOf t.cfg.cls symB then
+        some (BitVec.ofNat 64 (recAt t.cfg symB i.toNat).value) else none) := by
+  have hsz := h.sym.size
+  have hlt := t.sym.size.isLt
+  have hi := i.isLt
+  have hcnt : countOf t.cfg.cls symB ≤ symB.length := Nat.div_le_self _ _
+  unfold symPtrValue guardNum
+  by_cases hn : (secData t.sym).isNone = true
+  · have he := h.sym.isNone hn
+    have h0 : countOf t.cfg.cls symB = 0 := by subst he; simp [countOf]
+    simp [hn, h0, sym32_ptr_guard, sym64_ptr_guard, pure, Except.pure, bind, Except.bind]
+  · simp only [hn, Bool.false_eq_true, if_false, symbolsNum_eq h, bind, Except.bind]
+    have hg : (BitVec.ult i (BitVec.ofNat 64 (countOf t.cfg.cls symB))) = decide (i.toNat < countOf t.cfg.cls symB) := by
+      simp only [BitVec.ult, BitVec.toNat_ofNat, Nat.reducePow] at *
+      rw [Nat.mod_eq_of_lt (by omega)]
+    simp only [sym32_ptr_guard, sym64_ptr_guard, ite_self, Bool.not_false, Bool.true_and, hg, decide_eq_true_eq]
+    by_cases hic : i.toNat < countOf t.cfg.cls symB
+    · have hin := count_lt hic
+      simp only [hic, if_true]
+      have hoff : (i * t.sym.entSize).toNat = i.toNat * Spec.symSize t.cfg.cls := by
+        rw [h.ent, symSizeOf_eq, BitVec.toNat_mul, BitVec.toNat_ofNat]
+        have : Spec.symSize t.cfg.cls < 25 := by cases t.cfg.cls <;> simp [Spec.symSize]
+        simp only [Nat.reducePow] at *
+        rw [Nat.mod_eq_of_lt (a := Spec.symSize t.cfg.cls) (by omega), Nat.mod_eq_of_lt (by omega)]
+      have hsmall : (if t.c32 = true then sym32_ptr_small t.sym.entSize else sym64_ptr_small t.sym.entSize) = false := by
+        rw [h.ent]; unfold c32
+        cases t.cfg.cls <;> simp [sym32_ptr_small, sym64_ptr_small, symSizeOf, BitVec.ult]
+      simp only [hsmall, Bool.false_eq_true, if_false, sym32_ptr_off, sym64_ptr_off, ite_self, hoff]
+      unfold recAt Spec.decodeSym
+      cases hc : t.cfg.cls <;> simp only [hc, Spec.symSize] at hin ⊢
+      · simp only [Elf32_Sym.st_value_off, Elf32_Sym.st_value_w]
+        rw [h.sym.rd _ _ _ (by omega) (by omega)]
+        simp only [pure, Except.pure]
+        rw [rdField_eq _ _ (by rw [slice_length_of_le (by omega)]; simp), slice_slice (by omega)]
+      · simp only [Elf64_Sym.st_value_off, Elf64_Sym.st_value_w]
+        rw [h.sym.rd _ _ _ (by omega) (by omega)]
+        simp only [pure, Except.pure]
+        rw [rdField_eq _ _ (by rw [slice_length_of_le (by omega)]; simp), slice_slice (by omega)]
+    · simp only [hic, if_false, pure, Except.pure]
+
+
+/-- `st_value` of every entry, in table order -/
+def valuesOf (cfg : Cfg) (symB : Bytes) : List Nat :=
+  (List.range (countOf cfg.cls symB)).map (fun j => (recAt cfg symB j).value)
+
+theorem valuesOf_get (cfg : Cfg) (symB : Bytes) (j : Nat) :
+    (valuesOf cfg symB)[j]? = if j < countOf cfg.cls symB then some (recAt cfg symB j).value else none := by
+  unfold valuesOf
+  by_cases h : j < countOf cfg.cls symB
+  · simp [h]
+  · simp [h]
+
+/-- the search loop finds the first entry at or after `i` whose value matches -/
+theorem searchGo_spec {t : SymTab} {symB strB : Bytes} (h : Wf t symB strB) (value : BitVec 64) :
+    ∀ (k i : Nat), i + k = countOf t.cfg.cls symB →
+      ∃ r, t.searchGo value k (BitVec.ofNat 64 i) = .ok r ∧
+        (match r with
+         | none => ∀ j, i ≤ j → j < countOf t.cfg.cls symB → (recAt t.cfg symB j).value ≠ value.toNat
+         | some idx => ∃ j, idx = BitVec.ofNat 64 j ∧ i ≤ j ∧ j < countOf t.cfg.cls symB ∧
+             (recAt t.cfg symB j).value = value.toNat ∧
+             ∀ j', i ≤ j' → j' < j → (recAt t.cfg symB j').value ≠ value.toNat) := by
+  have hcnt : countOf t.cfg.cls symB ≤ symB.length := Nat.div_le_self _ _
+  have hlt := t.sym.size.isLt
+  have hsz := h.sym.size
+  intro k
+  induction k with
+  | zero =>
+    intro i hi
+    exact ⟨none, rfl, fun j h1 h2 => by omega⟩
+  | succ k ih =>
+    intro i hi
+    have hin : i < countOf t.cfg.cls symB := by omega
+    have hiN : (BitVec.ofNat 64 i).toNat = i := by
+      simp only [BitVec.toNat_ofNat, Nat.reducePow] at *; omega
+    unfold searchGo
+    rw [symPtrValue_eq h, hiN]
+    simp only [hin, if_true, bind, Except.bind]
+    have hv := recAt_value_lt t.cfg symB i
+    have hveq : (BitVec.ofNat 64 (recAt t.cfg symB i).value == value) = decide ((recAt t.cfg symB i).value = value.toNat) := by
+      rw [Bool.eq_iff_iff]
+      simp only [beq_iff_eq, decide_eq_true_eq]
+      constructor
+      · intro e; rw [← e]; simp only [BitVec.toNat_ofNat, Nat.reducePow]; omega
+      · intro e; apply BitVec.eq_of_toNat_eq; simp only [BitVec.toNat_ofNat, Nat.reducePow]; omega
+    rw [hveq]
+    by_cases hm : (recAt t.cfg symB i).value = value.toNat
+    · simp only [hm, decide_true, if_true]
+      exact ⟨some (BitVec.ofNat 64 i), rfl, i, rfl, Nat.le_refl _, hin, hm, fun j' h1 h2 => by omega⟩
+    · simp only [hm, decide_false, Bool.false_eq_true, if_false]
+      have hnext : BitVec.ofNat 64 i + 1 = BitVec.ofNat 64 (i + 1) := by
+        have h1 : (1 : BitVec 64).toNat = 1 := rfl
+        apply BitVec.eq_of_toNat_eq
+        simp only [BitVec.toNat_add, BitVec.toNat_ofNat, h1, Nat.reducePow]
+        omega
+      rw [hnext]
+      obtain ⟨r, e, p⟩ := ih (i + 1) (by omega)
+      refine ⟨r, e, ?_⟩
+      cases r with
+      | none =>
+        intro j h1 h2
+        rcases Nat.eq_or_lt_of_le h1 with e1 | e1
+        · subst e1; exact hm
+        · exact p j e1 h2
+      | some idx =>
+        obtain ⟨j, e1, e2, e3, e4, e5⟩ := p
+        refine ⟨j, e1, by omega, e3, e4, ?_⟩
+        intro j' h1 h2
+        rcases Nat.eq_or_lt_of_le h1 with e6 | e6
+        · subst e6; exact hm
+        · exact e5 j' e6 h2
+
 end SymTab
+
+namespace Spec
+theorem firstIdx_eq_some {α} {p : α → Bool} {l : List α} {j : Nat} {a : α} (hj : l[j]? = some a) (hp : p a = true)
+    (hmin : ∀ j', j' < j → ∀ b, l[j']? = some b → p b = false) : firstIdx p l = some j := by
+  induction l generalizing j with
+  | nil => simp at hj
+  | cons x xs ih =>
+    cases j with
+    | zero =>
+      simp at hj; subst hj
+      simp [firstIdx, hp]
+    | succ j =>
+      have hx : p x = false := hmin 0 (by omega) x (by simp)
+      simp only [firstIdx, hx, Bool.false_eq_true, if_false]
+      rw [ih (by simpa using hj) (fun j' h1 b hb => hmin (j' + 1) (by omega) b (by simpa using hb))]
+      rfl
+
+theorem firstIdx_eq_none {α} {p : α → Bool} {l : List α} (h : ∀ (j : Nat) (b : α), l[j]? = some b → p b = false) :
+    firstIdx p l = none := by
+  induction l with
+  | nil => rfl
+  | cons x xs ih =>
+    have hx : p x = false := h 0 x (by simp)
+    simp only [firstIdx, hx, Bool.false_eq_true, if_false]
+    rw [ih (fun j b hb => h (j + 1) b (by simpa using hb))]
+    rfl
+end Spec
+
+
+namespace SymTab
+
+theorem bind_ok' {α β} {x : M α} {f : α → M β} {r : β} (h : (x >>= f) = .ok r) :
+    ∃ v, x = .ok v ∧ f v = .ok r := by
+  cases x with
+  | error e => simp [bind, Except.bind] at h
+  | ok v => exact ⟨v, rfl, h⟩
+
+/-- every entry's `st_name` leads to a terminated string inside the string section -/
+def ValidNames (cfg : Cfg) (symB strB : Bytes) : Prop :=
+  ∀ j, j < countOf cfg.cls symB → (nameAt cfg symB strB j).isSome = true
+
+/-- `(s, a)` are the name and the attributes of some entry of the table -/
+def SymAt (cfg : Cfg) (symB strB : Bytes) (s : Bytes) (a : Attrs) : Prop :=
+  ∃ j, j < countOf cfg.cls symB ∧ nameAt cfg symB strB j = some s ∧ a = attrsOfRec (recAt cfg symB j)
+
+/-- a by-index read either fails and leaves the out-parameters alone, or delivers an entry -/
+theorem getSymbol_symAt {t : SymTab} {symB strB : Bytes} (h : Wf t symB strB) (hv : ValidNames t.cfg symB strB)
+    (i : BitVec 64) (str : Bytes) (a : Attrs) (r : Bool × Bytes × Attrs) (e : t.getSymbol i str a = .ok r) :
+    (r.1 = true → SymAt t.cfg symB strB r.2.1 r.2.2) ∧ (r.1 = false → r.2.1 = str ∧ r.2.2 = a) := by
+  rw [getSymbol_decoded h] at e
+  by_cases hi : i.toNat < countOf t.cfg.cls symB
+  · simp only [hi, if_true, Except.ok.injEq] at e
+    obtain ⟨n, hn⟩ := Option.isSome_iff_exists.mp (hv _ hi)
+    rw [← e]
+    refine ⟨fun _ => ⟨i.toNat, hi, ?_, rfl⟩, fun c => by simp at c⟩
+    simp [hn]
+  · simp only [hi, if_false, Except.ok.injEq] at e
+    rw [← e]
+    exact ⟨fun c => by simp at c, fun _ => ⟨rfl, rfl⟩⟩
+
+/-- the SysV chain walk only ever holds the name and attributes of an entry -/
+theorem sysvLoop_symAt {t : SymTab} {symB strB : Bytes} (h : Wf t symB strB) (hv : ValidNames t.cfg symB strB)
+    (data : Option Bytes) (name : Bytes) (nbucket nchain : BitVec 32) :
+    ∀ (fuel : Nat) (y : BitVec 32) (str : Bytes) (a : Attrs) (st : Bytes × Attrs),
+      SymAt t.cfg symB strB str a → sysvLoop t data name nbucket nchain fuel y str a = .ok st →
+      SymAt t.cfg symB strB st.1 st.2 := by
+  intro fuel
+  induction fuel with
+  | zero =>
+    intro y str a st hs e
+    rw [sysvLoop] at e
+    split at e
+    · cases e
+    · cases e; exact hs
+  | succ k ih =>
+    intro y str a st hs e
+    rw [sysvLoop] at e
+    split at e
+    · obtain ⟨y', _, e1⟩ := bind_ok' e
+      obtain ⟨r, er, e2⟩ := bind_ok' e1
+      obtain ⟨p1, p2⟩ := getSymbol_symAt h hv _ _ _ r er
+      cases hr : r.1 with
+      | true => exact ih _ _ _ _ (p1 hr) e2
+      | false =>
+        obtain ⟨q1, q2⟩ := p2 hr
+        rw [q1, q2] at e2
+        exact ih _ _ _ _ hs e2
+    · cases e; exact hs
+
+/-- **soundness of the SysV walk** : it reports success only with the attributes of an entry that
+    carries the requested name -/
+theorem hashLookup_sound {t : SymTab} {symB strB : Bytes} (h : Wf t symB strB) (hv : ValidNames t.cfg symB strB)
+    (hs : SecBuf) (name : Bytes) (a a' : Attrs) (e : t.hashLookup hs name a = .ok (true, a')) :
+    SymAt t.cfg symB strB name a' := by
+  unfold hashLookup at e
+  obtain ⟨nbucket, _, e⟩ := bind_ok' e
+  obtain ⟨nchain, _, e⟩ := bind_ok' e
+  simp only at e
+  split at e
+  · cases e
+  obtain ⟨y, _, e⟩ := bind_ok' e
+  obtain ⟨r, er, e⟩ := bind_ok' e
+  obtain ⟨p1, _⟩ := getSymbol_symAt h hv _ _ _ r er
+  split at e
+  · cases e
+  · rename_i hr
+    have hr' : r.1 = true := by simpa using hr
+    obtain ⟨st, es, e⟩ := bind_ok' e
+    have := sysvLoop_symAt h hv _ _ _ _ _ _ _ _ st (p1 hr') es
+    simp only [pure, Except.pure, Except.ok.injEq, Prod.mk.injEq, beq_iff_eq] at e
+    rw [← e.1, ← e.2]; exact this
+
+
+/-- the GNU chain walk reports success only right after a successful read of a matching entry -/
+theorem gnuLoop_sound {t : SymTab} {symB strB : Bytes} (h : Wf t symB strB) (hv : ValidNames t.cfg symB strB)
+    (data : Option Bytes) (name : Bytes) (hash symoffset : BitVec 32) (chainsBase : Nat) :
+    ∀ (fuel : Nat) (ci ch : BitVec 32) (sn : Bytes) (a a' : Attrs),
+      gnuLoop t data name hash symoffset chainsBase fuel ci ch sn a = .ok (true, a') →
+      SymAt t.cfg symB strB name a' := by
+  intro fuel
+  induction fuel with
+  | zero => intro ci ch sn a a' e; rw [gnuLoop] at e; cases e
+  | succ k ih =>
+    intro ci ch sn a a' e
+    rw [gnuLoop] at e
+    obtain ⟨r, er, e⟩ := bind_ok' e
+    simp only at e
+    generalize (if t.c32 = true then gnu32_hash_match ch hash else gnu64_hash_match ch hash) = hm at e er
+    by_cases hc : (hm && r.1 && (name == r.2.1)) = true
+    · rw [if_pos hc] at e
+      simp only [Bool.and_eq_true, beq_iff_eq] at hc
+      simp only [pure, Except.pure, Except.ok.injEq, Prod.mk.injEq, true_and] at e
+      obtain ⟨⟨hm', hr⟩, hn⟩ := hc
+      rw [if_pos hm'] at er
+      obtain ⟨p1, _⟩ := getSymbol_symAt h hv _ _ _ r er
+      rw [← e, hn]; exact p1 hr
+    · rw [if_neg hc] at e
+      by_cases hend : (if t.c32 = true then gnu32_chain_end ch else gnu64_chain_end ch) = true
+      · rw [if_pos hend] at e; simp [pure, Except.pure] at e
+      · rw [if_neg hend] at e
+        obtain ⟨ch', _, e⟩ := bind_ok' e
+        exact ih _ _ _ _ _ e
+
+/-- **soundness of the GNU walk** -/
+theorem gnuLookup_sound {t : SymTab} {symB strB : Bytes} (h : Wf t symB strB) (hv : ValidNames t.cfg symB strB)
+    (hs : SecBuf) (name : Bytes) (a a' : Attrs) (e : t.gnuLookup hs name a = .ok (true, a')) :
+    SymAt t.cfg symB strB name a' := by
+  unfold gnuLookup at e
+  obtain ⟨nbuckets, _, e⟩ := bind_ok' e
+  obtain ⟨symoffset, _, e⟩ := bind_ok' e
+  obtain ⟨bloomSize, _, e⟩ := bind_ok' e
+  obtain ⟨bloomShift, _, e⟩ := bind_ok' e
+  simp only at e
+  split at e
+  · cases e
+  obtain ⟨pass, _, e⟩ := bind_ok' e
+  split at e
+  · simp [pure, Except.pure] at e
+  split at e
+  · cases e
+  obtain ⟨bv, _, e⟩ := bind_ok' e
+  split at e
+  · obtain ⟨ch, _, e⟩ := bind_ok' e
+    exact gnuLoop_sound h hv _ _ _ _ _ _ _ _ _ _ _ e
+  · simp [pure, Except.pure] at e
+
+/-- soundness of the whole hash phase of `get_symbol(name, …)` -/
+theorem hashPhase_sound {t : SymTab} {symB strB : Bytes} (h : Wf t symB strB) (hv : ValidNames t.cfg symB strB)
+    (name : Bytes) (a a' : Attrs) (e : t.hashPhase name a = .ok (true, a')) :
+    SymAt t.cfg symB strB name a' := by
+  unfold hashPhase at e
+  split at e
+  · simp [pure, Except.pure] at e
+  · rename_i hs _
+    obtain ⟨r1, e1, e⟩ := bind_ok' e
+    split at e
+    · exact gnuLookup_sound h hv _ _ _ _ e
+    · simp only [pure, Except.pure, Except.ok.injEq] at e
+      subst e
+      split at e1
+      · exact hashLookup_sound h hv _ _ _ _ e1
+      · simp [pure, Except.pure] at e1
+
+/-- the unconditional fallback: first entry at or after `i` that carries the name -/
+theorem linearGo_spec {t : SymTab} {symB strB : Bytes} (h : Wf t symB strB) (hv : ValidNames t.cfg symB strB)
+    (name : Bytes) :
+    ∀ (k i : Nat) (a : Attrs), i + k = countOf t.cfg.cls symB →
+      ∃ r a'', t.linearGo name k (BitVec.ofNat 64 i) a = .ok (r, a'') ∧
+        (r = false → ∀ j, i ≤ j → j < countOf t.cfg.cls symB → nameAt t.cfg symB strB j ≠ some name) ∧
+        (r = true → ∃ j, i ≤ j ∧ j < countOf t.cfg.cls symB ∧ nameAt t.cfg symB strB j = some name ∧
+            a'' = attrsOfRec (recAt t.cfg symB j) ∧
+            ∀ j', i ≤ j' → j' < j → nameAt t.cfg symB strB j' ≠ some name) := by
+  have hcnt : countOf t.cfg.cls symB ≤ symB.length := Nat.div_le_self _ _
+  have hlt := t.sym.size.isLt
+  have hsz := h.sym.size
+  intro k
+  induction k with
+  | zero =>
+    intro i a hi
+    exact ⟨false, a, rfl, fun _ j h1 h2 => by omega, fun c => by cases c⟩
+  | succ k ih =>
+    intro i a hi
+    have hin : i < countOf t.cfg.cls symB := by omega
+    have hiN : (BitVec.ofNat 64 i).toNat = i := by
+      simp only [BitVec.toNat_ofNat, Nat.reducePow] at *; omega
+    obtain ⟨n, hn⟩ := Option.isSome_iff_exists.mp (hv _ hin)
+    have hstep : t.linearGo name (k + 1) (BitVec.ofNat 64 i) a =
+        (if (n == name) = true then pure (true, attrsOfRec (recAt t.cfg symB i))
+         else t.linearGo name k (BitVec.ofNat 64 i + 1) (attrsOfRec (recAt t.cfg symB i))) := by
+      rw [linearGo, getSymbol_decoded h, hiN]
+      simp only [hin, if_true, bind, Except.bind, hn, Option.getD_some, Bool.true_and]
+    rw [hstep]
+    by_cases hm : n = name
+    · subst hm
+      refine ⟨true, attrsOfRec (recAt t.cfg symB i), by simp [pure, Except.pure], fun c => (by cases c),
+        fun _ => ⟨i, Nat.le_refl _, hin, hn, rfl, fun j' h1 h2 => by omega⟩⟩
+    · have hb : (n == name) = false := by simpa using hm
+      rw [hb]
+      simp only [Bool.false_eq_true, if_false]
+      have hnext : BitVec.ofNat 64 i + 1 = BitVec.ofNat 64 (i + 1) := by
+        have h1 : (1 : BitVec 64).toNat = 1 := rfl
+        apply BitVec.eq_of_toNat_eq
+        simp only [BitVec.toNat_add, BitVec.toNat_ofNat, h1, Nat.reducePow]
+        omega
+      rw [hnext]
+      obtain ⟨r, a'', e, p1, p2⟩ := ih (i + 1) (attrsOfRec (recAt t.cfg symB i)) (by omega)
+      have hne : nameAt t.cfg symB strB i ≠ some name := by rw [hn]; simpa using hm
+      refine ⟨r, a'', e, ?_, ?_⟩
+      · intro hr j h1 h2
+        rcases Nat.eq_or_lt_of_le h1 with e1 | e1
+        · subst e1; exact hne
+        · exact p1 hr j e1 h2
+      · intro hr
+        obtain ⟨j, e1, e2, e3, e4, e5⟩ := p2 hr
+        refine ⟨j, by omega, e2, e3, e4, ?_⟩
+        intro j' h1 h2
+        rcases Nat.eq_or_lt_of_le h1 with e6 | e6
+        · subst e6; exact hne
+        · exact e5 j' e6 h2
+
+
+/-- names of the entries in table order -/
+def namesOfTable (cfg : Cfg) (symB strB : Bytes) : List Bytes :=
+  (List.range (countOf cfg.cls symB)).map (fun j => (nameAt cfg symB strB j).getD [])
+
+theorem namesOfTable_get (cfg : Cfg) (symB strB : Bytes) (j : Nat) :
+    (namesOfTable cfg symB strB)[j]? =
+      if j < countOf cfg.cls symB then some ((nameAt cfg symB strB j).getD []) else none := by
+  unfold namesOfTable
+  by_cases h : j < countOf cfg.cls symB
+  · simp [h]
+  · simp [h]
+
+theorem linearGo_congr {t t' : SymTab} (hg : ∀ i str a, t.getSymbol i str a = t'.getSymbol i str a) (name : Bytes) :
+    ∀ (k : Nat) (i : BitVec 64) (a : Attrs), t.linearGo name k i a = t'.linearGo name k i a := by
+  intro k
+  induction k with
+  | zero => intro i a; rfl
+  | succ k ih =>
+    intro i a
+    rw [linearGo, linearGo, hg]
+    cases t'.getSymbol i [] a with
+    | error e => rfl
+    | ok r =>
+      simp only [bind, Except.bind]
+      split
+      · rfl
+      · exact ih _ _
+
+theorem searchGo_congr {t t' : SymTab} (hg : ∀ i, t.symPtrValue i = t'.symPtrValue i) (value : BitVec 64) :
+    ∀ (k : Nat) (i : BitVec 64), t.searchGo value k i = t'.searchGo value k i := by
+  intro k
+  induction k with
+  | zero => intro i; rfl
+  | succ k ih =>
+    intro i
+    rw [searchGo, searchGo, hg]
+    cases t'.symPtrValue i with
+    | error e => rfl
+    | ok r =>
+      simp only [bind, Except.bind]
+      cases r with
+      | none => rfl
+      | some v =>
+        simp only
+        split
+        · rfl
+        · exact ih _
+
+end SymTab
+
+
 end ElfioVerif
